@@ -208,7 +208,7 @@ func runDial(tt *testing.T, tape *simrt.Tape, keep bool) (out simrt.Outcome) {
 		if mode == "dns-disabled" {
 			ttl = -1 // documented: a negative ttl disables caching altogether
 		}
-		z := &zone{start: time.Now()}
+		z := &zone{start: w.Start} // same time origin as the controller
 		first := map[string][]string{"svc.test.": pick(), "alt1.test.": pick(), "alt2.test.": pick()}
 		z.epochs = []zoneEpoch{{0, first}}
 		changes := ttl > 0 && tape.Prob(1, 2)
@@ -426,7 +426,7 @@ func runDial(tt *testing.T, tape *simrt.Tape, keep bool) (out simrt.Outcome) {
 		}
 		// ---- oracle over the dial history ----
 		if viol == nil {
-			checkDialHistory(fail, stats, mode, ttl, z, first, changes, cmap, mapped, repl, order, long)
+			checkDialHistory(fail, stats, mode, ttl, z, first, changes, cmap, mapped, repl, order, long, len(arms) == 0)
 		}
 		if viol == nil {
 			// what the ttl value means, seen at the DNS server (fake time)
@@ -505,15 +505,28 @@ func withPort(ips []string, port string) map[string]bool {
 }
 
 func checkDialHistory(fail func(string, string, ...any), stats map[string]int, mode string, ttl time.Duration, z *zone, first map[string][]string, changes bool,
-	cmap map[string][]string, mapped string, repl []string, order []*outerDial, long bool) {
+	cmap map[string][]string, mapped string, repl []string, order []*outerDial, long bool, strict bool) {
 	// allowed final addresses for a dial to svc.test:80, per mode; when the zone changes at a refresh,
 	// the union of the old and the new set is allowed from the change on (a refresh happens within ttl of it)
 	svc := func(at time.Duration) map[string]bool {
+		if changes && strict && at >= z.epochs[1].from+ttl+time.Nanosecond {
+			// a refresh tick has fired (and, nobody being held at a breakpoint, completed) since the
+			// answer changed: only the new set is current
+			return withPort(z.epochs[1].sets["svc.test."], "80")
+		}
 		al := withPort(first["svc.test."], "80")
 		if changes && at >= z.epochs[1].from {
 			for k := range withPort(z.epochs[1].sets["svc.test."], "80") {
 				al[k] = true
 			}
+		}
+		return al
+	}
+	// the lookup happens somewhere between invocation and return: the sets current at both instants are acceptable
+	svcSpan := func(d *outerDial) map[string]bool {
+		al := svc(d.tRet)
+		for k := range svc(d.t) {
+			al[k] = true
 		}
 		return al
 	}
@@ -564,7 +577,7 @@ func checkDialHistory(fail func(string, string, ...any), stats map[string]int, m
 		var allowed map[string]bool
 		switch mode {
 		case "dns":
-			allowed = svc(d.tRet)
+			allowed = svcSpan(d)
 		case "connect-to":
 			allowed = map[string]bool{}
 			for _, r := range repl {
@@ -578,7 +591,7 @@ func checkDialHistory(fail func(string, string, ...any), stats map[string]int, m
 				}
 			}
 		case "connect-to+dns":
-			allowed = svc(d.tRet)
+			allowed = svcSpan(d)
 			for _, r := range repl {
 				allowed[r] = true
 			}
@@ -590,7 +603,7 @@ func checkDialHistory(fail func(string, string, ...any), stats map[string]int, m
 				return
 			}
 			used[a]++
-			if mode == "connect-to+dns" && !svc(d.tRet)[a] {
+			if mode == "connect-to+dns" && !svcSpan(d)[a] {
 				continue // a replacement address: its family says nothing about the resolved address it replaced
 			}
 			famSeen[fam(a)]++
